@@ -22,6 +22,11 @@ def attribute(stream, case, impl, model, why):
         return 'F2'
     return None
 
+def extra(tier, seed, rng, res, broken):
+    """the last references of a span released on several threads at the same moment: reported closed exactly once"""
+    from checks import stressgen
+    stressgen.stress_phase('closeonce', tier, res, broken, seed)
+
 def classify(stream, case, out):
     s = reggen.stats(case, out)
     return '%s threads=%d cascade=%s' % (stream, s['threads'], 'y' if s['cascade'] else 'n')
@@ -33,17 +38,21 @@ PROPERTY = {
                 'C05.refcount_sum: in every history a program can perform (clone / drop / enter through a handle it holds, explicit parents that are live, any finite set of threads, own default), at every point the stored '
                 'reference count of every span still in the registry = handles held + threads entered on + children still open, by an accounting invariant that allows one span to hold one reference too many while try_close '
                 'cascades up the parent chain (which ends: a parent is always an older span); hence closed_means_nothing_left (never earlier) and nothing_left_means_gone (not later). '
+                'Interleaved releases: a transition system over the atomic operations on one span\'s count, parametrised by whether try_close decides on the value its own fetch_sub returned (close_decision_code_fact, extracted from sharded.rs): '
+                'n threads releasing the n references under EVERY schedule, at most one concludes that it was the last and exactly one once the count is 0 (one_closer_interleaved); with a separate load two do (two_closers_witness); real threads dropping handles together (h_stress) must see each span closed once. '
                 'The real Registry (two recording layers: close notifications, data readable inside on_close, presence afterwards) is compared with the compiled model AND with the count-free specification Spec/RegistrySpec.lean.',
         'note': 'Trusted: Lean kernel; propext/Classical.choice/Quot.sound; sharded_slab (fresh key per checkout, clear runs Clear; ids mapped to creation indices); sequential at op granularity '
-                '(the fetch_sub race is argued, not modelled); known finding F2 (exit/clear close through the CURRENT default; under no/foreign default parents leak or the wrong registry is hit) is the excluded region.',
+                '(the history model; the fetch_sub race has its own interleaved model, one span at a time); known finding F2 (exit/clear close through the CURRENT default; under no/foreign default parents leak or the wrong registry is hit) is the excluded region.',
         'technique': 'Lean 4 proof (invariant over histories) of a hand-written model + differential run against the real Registry',
     },
-    'lean_module': 'TracingModel.Props.C05R',
-    'leanchecker_modules': ['TracingModel.Props.C05'],
+    'lean_module': 'TracingModel.Props.C05A',
+    'leanchecker_modules': ['TracingModel.Props.C05', 'TracingModel.Props.C05R'],
+    'extra_bins': ['h_stress'],
     'namespace': 'C05',
-    'units': [],
+    'units': ['AtomicCounts'],
     'required_theorems': ['C05.close_once', 'C05.step_inv', 'C05.tryClose_inv', 'C05.f2_witness',
-                          'C05.refcount_sum', 'C05.closed_means_nothing_left', 'C05.nothing_left_means_gone', 'C05.tryClose_acc', 'C05.step_acc'],
+                          'C05.refcount_sum', 'C05.closed_means_nothing_left', 'C05.nothing_left_means_gone', 'C05.tryClose_acc', 'C05.step_acc',
+                          'C05.close_decision_code_fact', 'C05.one_closer_interleaved', 'C05.two_closers_witness'],
     'streams': [
         Stream('own', 'h_registry', gen=gen, nontrivial=nontrivial, spec_mode='spec'),
         Stream('f2', 'h_registry', gen=gen_f2, nontrivial=nontrivial, spec_mode='spec'),
